@@ -62,7 +62,7 @@ def r1_construction_sites(ctx):
                     for g in (o if isinstance(o, list) else [o]):
                         if g is not None:
                             sites.setdefault(g.key, []).append((g, st))
-    ctx.floor("C09.R1", "functions constructing objective values", len(sites), 8)
+    ctx.floor("C09.R1", "functions constructing objective values", len(sites), 5)
     known_single = {"try_from": "converter", "default": "const"}
     findings = []
     for key, lst in sorted(sites.items()):
@@ -169,7 +169,7 @@ def r2_no_mutable_access(ctx):
                         inside = f.impl_self_adt in (SO, MO) and f.from_expansion
                         ctx.check(inside, "C09.R2", f.key, "inner:%s" % c, "the inner value of an objective is %s in %s" % (c, f.key), loc=f.loc(line))
                     break
-    ctx.floor("C09.R2", "projections of the objectives' inner values", n, 10)
+    ctx.floor("C09.R2", "projections of the objectives' inner values", n, 5)
     for adt in (SO, MO):
         a = F.adt(adt)
         fld = a["variants"][0]["fields"][0]
